@@ -19,6 +19,7 @@ func init() {
 			{"SYNC-BEFORE-MERGE", ruleSyncBeforeMerge},
 			{"SORT-BEFORE-BUILD", ruleSortBeforeBuild},
 			{"HEADS-UPDATE", ruleHeadsUpdate},
+			{"HEADS-PREFIX", ruleHeadsPrefix},
 			{"WALK-STOP", ruleWalkStop},
 			{"PURITY", func(c *eng.Ctx) {
 				rulePurity(c, "PURITY", []string{"internal/core/block.New", "internal/core/block.putBlock", "internal/core/block.(*Block).GenerateLink", "internal/core/block.(*Block).Marshal"})
@@ -473,4 +474,57 @@ func rulePurity(c *eng.Ctx, rule string, roots []string) {
 		}
 	}
 	c.Floor(rule, n, len(rootFns))
+}
+
+// ruleHeadsPrefix: the head set of one CRDT is listed with a prefix that ends in the key separator,
+// otherwise the heads of field/collection "2" include those of "20", "21", ...
+func ruleHeadsPrefix(c *eng.Ctx) {
+	const rule = "HEADS-PREFIX"
+	fi := c.Anchor(rule, "internal/core/block.(*heads).List")
+	if fi == nil {
+		return
+	}
+	info := fi.Pkg.TypesInfo
+	n := 0
+	ast.Inspect(fi.Decl.Body, func(m ast.Node) bool {
+		kv, ok := m.(*ast.KeyValueExpr)
+		if !ok {
+			return true
+		}
+		if k, ok := kv.Key.(*ast.Ident); !ok || k.Name != "Prefix" {
+			return true
+		}
+		n++
+		good := false
+		v := ast.Unparen(kv.Value)
+		// follow a local
+		if o := eng.ObjOf(info, v); o != nil {
+			ast.Inspect(fi.Decl.Body, func(x ast.Node) bool {
+				if as, ok := x.(*ast.AssignStmt); ok && len(as.Lhs) == 1 && len(as.Rhs) == 1 && eng.ObjOf(info, as.Lhs[0]) == o {
+					v = ast.Unparen(as.Rhs[0])
+				}
+				return true
+			})
+		}
+		if call, ok := v.(*ast.CallExpr); ok {
+			if id, ok := call.Fun.(*ast.Ident); ok && id.Name == "append" && len(call.Args) >= 2 {
+				last := call.Args[len(call.Args)-1]
+				if tv, ok := info.Types[last]; ok && tv.Value != nil && (tv.Value.ExactString() == "47" || tv.Value.ExactString() == `"/"`) {
+					good = true
+				}
+			}
+			// []byte(x.ToString() + "/")
+			if len(call.Args) == 1 {
+				if be, ok := ast.Unparen(call.Args[0]).(*ast.BinaryExpr); ok && be.Op == token.ADD {
+					if tv, ok := info.Types[be.Y]; ok && tv.Value != nil && tv.Value.ExactString() == `"/"` {
+						good = true
+					}
+				}
+			}
+		}
+		c.Check(good, rule, "heads.List:prefix-ends-with-separator", kv.Pos(), "the namespace prefix is terminated by the key separator",
+			"heads.List scans with the bare namespace key ("+eng.ExprStr(kv.Value)+") as prefix: the heads of field (or collection) N also include those of every field whose id starts with N, so a commit names commits of unrelated fields as parents and takes its height from them")
+		return true
+	})
+	c.Floor(rule, n, 1)
 }
